@@ -587,7 +587,13 @@ func (x *Exec) checkLoopFrame(fr *Frame, st *State, li *loopInfo) {
 
 // checkLoopLocks: at a back edge the ghost lock state equals the one at loop entry.
 func (x *Exec) checkLoopLocks(fr *Frame, st *State, li *loopInfo) {
-	names := st.lockSnapNames[li.key]
+	names, snapped := st.lockSnapNames[li.key]
+	if !snapped {
+		// no lock operation in the loop body (no snapshot was taken at the head): nothing to balance.
+		// (Comparing with the initial state here was wrong: a lock held across the loop made the check
+		// fail, and the assumed goal then made everything checked after it at the back edge vacuous.)
+		return
+	}
 	snap := st.loopSnap[li.key+"#locks"]
 	seen := map[string]bool{}
 	for i, name := range names {
